@@ -1,1 +1,49 @@
-From Util Require Import Common.Base Common.ListLemmas Routine.Model Routine.Proofs.
+(* C05 - routine: superseded instances are cancelled; the survivor has the latest context and state.
+   Statements only; for every event list of the gate-level model (every API call is one critical section of the
+   container's Broadcast, so concurrent calls are interleavings of these events; the lock discipline that justifies
+   this granularity is C13's obligation, and the pinned code's violation of it was defect D5). *)
+From Util Require Import Common.Base Common.ListLemmas Routine.Model Routine.Proofs Routine.ProofsC05.
+
+(* in every reachable state: an instance whose context is still live is THE current instance of the current routine
+   record, the container has a context, the instance derives from exactly that context, and (state variant) it was
+   given the currently stored, non-empty state *)
+Theorem c05_live_instance_is_current : forall variant cmp ncb script es i x,
+  let s := run repaired (init variant cmp ncb script) es in
+  nth_error (insts s) i = Some x -> icanc x = false ->
+  exists r, routine s = Some r /\ rctx (getr s r) = Some i /\ irec x = r /\
+            kctx s <> 0 /\ iroot x = kctx s /\
+            (sv s = true -> iarg x = sval s /\ sval s <> 0%N).
+Proof. exact live_instance_is_current. Qed.
+Print Assumptions c05_live_instance_is_current.
+
+(* it is the only one *)
+Theorem c05_at_most_one_live : forall variant cmp ncb script es,
+  cnt live (insts (run repaired (init variant cmp ncb script) es)) <= 1.
+Proof. exact at_most_one_live. Qed.
+Print Assumptions c05_at_most_one_live.
+
+(* when a call returns (after every event), every instance that is not the current one has a cancelled context *)
+Theorem c05_superseded_is_cancelled : forall variant cmp ncb script es i x,
+  let s := run repaired (init variant cmp ncb script) es in
+  nth_error (insts s) i = Some x ->
+  (forall r, routine s = Some r -> rctx (getr s r) <> Some i) -> icanc x = true.
+Proof. exact superseded_is_cancelled. Qed.
+Print Assumptions c05_superseded_is_cancelled.
+
+(* no live instance unless the container has a context, a routine and (state variant) a non-empty state *)
+Theorem c05_live_needs_context_routine_state : forall variant cmp ncb script es,
+  let s := run repaired (init variant cmp ncb script) es in
+  (kctx s = 0 \/ routine s = None \/ (sv s = true /\ sval s = 0%N)) ->
+  forall i x, nth_error (insts s) i = Some x -> icanc x = true.
+Proof. exact live_needs_context_routine_state. Qed.
+Print Assumptions c05_live_needs_context_routine_state.
+
+(* non-vacuity: a state container with a live instance carrying the latest state; after SetState(empty) none is live *)
+Example c05_example_state :
+  let s := run repaired (init true 1 1 None) [ESetCtx 1 false; ESetSR 1; ESetState 5; EProceed 0 true; ESetState 7; EProceed 1 false] in
+  cnt live (insts s) = 1 /\ iarg (geti s 1) = 7%N /\ icanc (geti s 0) = true /\ iroot (geti s 1) = 1.
+Proof. vm_compute. repeat split; reflexivity. Qed.
+Example c05_example_empty_state :
+  let s := run repaired (init true 1 1 None) [ESetCtx 1 false; ESetSR 1; ESetState 5; EProceed 0 true; ESetState 0] in
+  cnt live (insts s) = 0 /\ routine s = None.
+Proof. vm_compute. repeat split; reflexivity. Qed.
